@@ -107,11 +107,64 @@ class S(nn.Module):
         return y + aux if aux is not None else y
 
 
+class _Backbone(nn.Module):
+    def __init__(self, C):
+        super().__init__()
+        from plinio.methods.supernet import SuperNetModule
+        self.conv0 = nn.Conv2d(1, C, 1)
+        self.blk = SuperNetModule([nn.Conv2d(C, C, 1), nn.Sequential(nn.Conv2d(C, C, 3, padding=1), nn.ReLU())])
+
+    def forward(self, x):
+        return self.blk(torch.relu(self.conv0(x)))
+
+
+class S2(nn.Module):
+    """two-stage search: a backbone that was itself searched and EXPORTED (its layers keep names such as blk.sn_branches.1.0) is offered as one
+    alternative of a choice block of a second SuperNet; the other alternative is a plain convolution"""
+
+    def __init__(self, backbone, C=2, HW=2):
+        super().__init__()
+        from plinio.methods.supernet import SuperNetModule
+        self.feat = SuperNetModule([backbone, nn.Sequential(nn.Conv2d(1, C, 1), nn.ReLU())])
+        self.fc = nn.Linear(C * HW * HW, 2)
+
+    def forward(self, x):
+        return self.fc(torch.relu(self.feat(x)).flatten(1))
+
+
+def _build_two_stage(spec, seed):
+    from plinio.methods import SuperNet
+    from plinio.methods.supernet.nn.combiner import SuperNetCombiner
+    C, hw = spec.get('C', 2), spec.get('HW', 2)
+    torch.manual_seed(seed)
+    bb = _Backbone(C)
+    dyadic_init(bb, seed)
+    sn1 = SuperNet(bb.eval(), input_shape=(1, hw, hw))
+    with torch.no_grad():
+        for mod in sn1.modules():
+            if isinstance(mod, SuperNetCombiner):
+                mod.alpha.copy_(torch.tensor([0.25, 0.75]))        # the first search selected the second alternative
+    exported = sn1.export()
+    m = S2(exported, C, hw)
+    with torch.no_grad():
+        for mod in m.modules():
+            if isinstance(mod, SuperNetCombiner):
+                mod.alpha.fill_(1.0 / mod.n_branches)
+    for n_, p_ in m.named_parameters():
+        if n_.startswith('feat.sn_branches.1') or n_.startswith('fc'):
+            pass
+    dyadic_init(m.feat.sn_branches[1], seed + 1)
+    dyadic_init(m.fc, seed + 2)
+    return m, (1, hw, hw)
+
+
 def prog_id(spec):
     return 'S(' + ','.join(f'{k}={v}' for k, v in sorted(spec.items()) if k not in ('id', 'tier', 'seed', 'selftest', 'sn')) + ')'
 
 
 def build(spec, seed=0):
+    if spec.get('two_stage'):
+        return _build_two_stage(spec, seed)
     torch.manual_seed(seed)
     kw = {k: v for k, v in spec.items() if k in ('n', 'kind', 'blocks', 'twice', 'C', 'HW', 'gumbel', 'hard', 'stem2', 'collide', 'bn')}
     m = S(**kw)
